@@ -518,7 +518,8 @@ unsigned long long peek(uintptr_t a, int sz) {
 
 void plain_access(void* p, int sz, bool write, bool is_volatile, void* pc) {
     uintptr_t a = (uintptr_t)p;
-    if (own_stack(a)) return;
+    // accesses to the thread's own stack are recorded too: OpenMP shares the enclosing function's locals by reference, so a
+    // variable on thread 0's stack can be raced on by every worker (the compiler only instruments locals whose address escapes)
     tl_inrt++;
     if (!is_volatile) record_access(a, write);
     // use_dpoints: 1 = volatile accesses and conflict locations are points (default), 0 = volatile only,
